@@ -83,12 +83,18 @@ class patched_random:
     def __enter__(self):
         import cspuz.generator.segmentation as seg
         self.seg = seg
-        self.saved = seg.random
-        seg.random = self.fake
+        # the module's source of randomness: `srandom` (cspuz.generator.srandom) since the C19 repair, the global
+        # `random` module before it; replace whichever name(s) the module has
+        self.saved = {}
+        for name in ("srandom", "random"):
+            if hasattr(seg, name):
+                self.saved[name] = getattr(seg, name)
+                setattr(seg, name, self.fake)
         return self.fake
 
     def __exit__(self, *a):
-        self.seg.random = self.saved
+        for name, v in self.saved.items():
+            setattr(self.seg, name, v)
         return False
 
 
